@@ -5,17 +5,43 @@ properties.jsonl and doc/doc.md), not verified.
 Quantifiers here are native z3 quantifiers (the implementation side, SpecBDD,
 expands quantifiers) so the two sides do not share an encoding.
 """
+import itertools
+import os
+
 import z3
+
+
+EXPAND = os.environ.get('OVC_NATIVE_QUANT', '0') != '1'
+
+
+def _expand(vs, t, conj):
+    """Finite-domain expansion of a quantifier over Boolean constants `vs`."""
+    vs = list(vs)
+    if not vs:
+        return t
+    inst = list()
+    for vals in itertools.product(
+            (z3.BoolVal(False), z3.BoolVal(True)), repeat=len(vs)):
+        inst.append(z3.substitute(t, *zip(vs, vals)))
+    return z3.And(*inst) if conj else z3.Or(*inst)
 
 
 def exists(vs, t):
     vs = list(vs)
-    return z3.Exists(vs, t) if vs else t
+    if not vs:
+        return t
+    if EXPAND:
+        return _expand(vs, t, False)
+    return z3.Exists(vs, t)
 
 
 def forall(vs, t):
     vs = list(vs)
-    return z3.ForAll(vs, t) if vs else t
+    if not vs:
+        return t
+    if EXPAND:
+        return _expand(vs, t, True)
+    return z3.ForAll(vs, t)
 
 
 def subst(t, pairs):
